@@ -281,6 +281,14 @@ func TestReplay(t *testing.T) {
 	if err != nil {
 		t.Fatal(err)
 	}
+	if cf.Sub == "agent" {
+		var ac AgentCase
+		if err := json.Unmarshal(cf.Case, &ac); err != nil {
+			t.Fatal(err)
+		}
+		checkAgent(t, ac)
+		return
+	}
 	var g Graph
 	if err := json.Unmarshal(cf.Case, &g); err != nil {
 		t.Fatal(err)
